@@ -19,5 +19,8 @@ def run(rep):
     cr.rule_skel(rep)
     cr.rule_fields(rep)
     cr.rule_input(rep, "C06.isolation")
+    # the case analysis above reads the document by key presence ("examples", "tableHeader" ...): it relies on the builder
+    # leaving optional members out rather than setting them to None
+    sh.rule_shape(rep, "C06.shape", "C06.none")
     # no hidden state: what the property promises for one use must hold for every later use as well
     ms.rule_stateless(rep, "C06")
